@@ -49,7 +49,7 @@ def rows(idx):
         store = {"self.advance_count": adv, "self.scan_count": 5, "self.match_count": 3, "self." + K.names(idx)["cmc"]: 0,
                  "self.skip_blank_lines": skip_blank, "self.collect_when_not_matched": cwnm}
         line = [] if empty else ["x", "y"]
-        ps = it.run_all(fi, args={"line": line}, store=store)
+        ps = it.run_all(fi, args={"line": line}, store=K.seed_aliases(idx, "CsvPath", store))
         if len(ps) != 1:
             raise AnalysisError(f"_consider_line depends on something outside the model: {ps[0].summary()['choices']}")
         ps[0].cfg = cfg
